@@ -455,9 +455,29 @@ def gen_plan(seed: int, scale: int = 1):
     # from version to version as definitions start to refer to one another; never the wire format)
     split = None
     srng = Rng(seed, "split")
-    if srng.chance(0.35):
-        cands = [d.name for d in versions[0].defs if d.kind in ("message", "enum", "alias") and d.name != "Packet"]
-        picked = [n for n in cands if srng.chance(0.6)]
+    if srng.chance(0.5):
+        v0 = versions[0]
+        cands = [d for d in v0.defs if d.kind in ("message", "enum", "alias") and d.name != "Packet"]
+        if srng.chance(0.5):
+            # a random subset (closed under "refers to" when printed)
+            picked = [d.name for d in cands if srng.chance(0.6)]
+        else:
+            # a horizontal cut: everything up to a seeded height of the "refers to" order goes to
+            # the library, its users stay in the main file -- so the file boundary runs between
+            # extensible messages / arrays and the element and field types they are made of
+            by_id = {id(d): d for d in v0.defs}
+            height = {}
+
+            def h(d):
+                if id(d) not in height:
+                    height[id(d)] = 0  # (cycle guard; the generator emits none)
+                    deps = [by_id[i] for i in v0._top_deps(d) if i in by_id]
+                    height[id(d)] = 1 + max([h(x) for x in deps] or [-1])
+                return height[id(d)]
+
+            top = max([h(d) for d in cands] or [0])
+            cut = srng.below(top + 1)
+            picked = [d.name for d in cands if h(d) <= cut]
         if picked:
             split = {"lib": picked, "alias": srng.choice(["lib", "base", "x"])}
             # The pinned Python generator drops the module prefix when the main file refers to a
